@@ -49,6 +49,77 @@ pub fn encode(id: RecId, len: usize) -> String {
 }
 
 #[derive(Clone, Debug, PartialEq)]
+pub enum Item {
+    Whole { id: RecId, start: usize, end: usize },
+    /// a strict prefix of a record (header possibly incomplete)
+    Torn { id: Option<RecId>, start: usize, end: usize },
+    Junk { start: usize, end: usize, why: String },
+}
+
+/// Splits `data[from..]` at record-start bytes and classifies every segment.
+/// Payloads and headers never contain 0x02, so the split is unambiguous.
+pub fn scan(data: &[u8], from: usize) -> Vec<Item> {
+    let mut items = vec![];
+    let mut p = from.min(data.len());
+    // bytes before the first record start
+    let first = data[p..].iter().position(|b| *b == 2).map(|i| p + i).unwrap_or(data.len());
+    if first > p {
+        items.push(Item::Junk { start: p, end: first, why: format!("byte {:#x} where a record start was expected", data[p]) });
+    }
+    p = first;
+    while p < data.len() {
+        let next = data[p + 1..].iter().position(|b| *b == 2).map(|i| p + 1 + i).unwrap_or(data.len());
+        let seg = &data[p..next];
+        // header
+        match seg.iter().position(|b| *b == 3) {
+            None => {
+                if seg[1..].iter().all(|b| b.is_ascii_digit() || *b == b',') && seg.len() < 40 {
+                    items.push(Item::Torn { id: None, start: p, end: next });
+                } else {
+                    items.push(Item::Junk { start: p, end: next, why: "malformed header".into() });
+                }
+            }
+            Some(q) => {
+                let hdr = std::str::from_utf8(&seg[1..q]).unwrap_or("?");
+                let parts: Vec<&str> = hdr.split(',').collect();
+                let nums: Option<Vec<usize>> = if parts.len() == 3 { parts.iter().map(|x| x.parse::<usize>().ok()).collect() } else { None };
+                match nums {
+                    Some(n) if n[0] <= u16::MAX as usize && n[1] <= u16::MAX as usize && n[2] < (1 << 24) => {
+                        let id = RecId { tid: n[0] as u16, n: n[1] as u16 };
+                        let want = payload(id, n[2]);
+                        let have = &seg[q + 1..];
+                        if have.len() == n[2] && have == want.as_bytes() {
+                            items.push(Item::Whole { id, start: p, end: next });
+                        } else if have.len() < n[2] && want.as_bytes().starts_with(have) {
+                            items.push(Item::Torn { id: Some(id), start: p, end: next });
+                        } else if have.len() > n[2] && &have[..n[2]] == want.as_bytes() {
+                            items.push(Item::Whole { id, start: p, end: p + q + 1 + n[2] });
+                            items.push(Item::Junk { start: p + q + 1 + n[2], end: next, why: "bytes after a record that do not start a record".into() });
+                        } else {
+                            items.push(Item::Junk { start: p, end: next, why: format!("payload of {} diverges", id) });
+                        }
+                    }
+                    _ => items.push(Item::Junk { start: p, end: next, why: format!("bad header {:?}", hdr) }),
+                }
+            }
+        }
+        p = next;
+    }
+    items
+}
+
+/// Ids of the whole records in `data`, in file order.
+pub fn whole_ids(data: &[u8]) -> Vec<RecId> {
+    scan(data, 0)
+        .into_iter()
+        .filter_map(|i| match i {
+            Item::Whole { id, .. } => Some(id),
+            _ => None,
+        })
+        .collect()
+}
+
+#[derive(Clone, Debug, PartialEq)]
 pub struct Parsed {
     pub recs: Vec<(RecId, usize, usize)>, // id, start, end
     /// a strict prefix of a record at the very end of the data
@@ -57,72 +128,24 @@ pub struct Parsed {
     pub garbage: Option<(usize, String)>,
 }
 
-/// Parses `data[from..]` as a sequence of whole records.
+/// Strict parse of `data[from..]` as whole records plus at most one torn tail.
 pub fn parse(data: &[u8], from: usize) -> Parsed {
     let mut out = Parsed { recs: vec![], torn: None, garbage: None };
-    let mut p = from.min(data.len());
-    while p < data.len() {
-        let start = p;
-        if data[p] != 2 {
-            out.garbage = Some((p, format!("byte {:#x} where a record start was expected", data[p])));
-            return out;
-        }
-        // header
-        let mut q = p + 1;
-        while q < data.len() && data[q] != 3 && q - p < 40 {
-            q += 1;
-        }
-        if q >= data.len() {
-            // header incomplete: torn if every byte so far is header-like
-            if data[p + 1..].iter().all(|b| b.is_ascii_digit() || *b == b',') {
-                out.torn = Some((None, start));
-            } else {
-                out.garbage = Some((p, "malformed header at end".into()));
-            }
-            return out;
-        }
-        if data[q] != 3 {
-            out.garbage = Some((p, "unterminated header".into()));
-            return out;
-        }
-        let hdr = match std::str::from_utf8(&data[p + 1..q]) {
-            Ok(h) => h,
-            Err(_) => {
-                out.garbage = Some((p, "non-utf8 header".into()));
+    let items = scan(data, from);
+    let n = items.len();
+    for (i, it) in items.into_iter().enumerate() {
+        match it {
+            Item::Whole { id, start, end } => out.recs.push((id, start, end)),
+            Item::Torn { id, start, .. } if i + 1 == n => out.torn = Some((id, start)),
+            Item::Torn { id, start, .. } => {
+                out.garbage = Some((start, format!("torn record {:?} in the middle of the file", id)));
                 return out;
             }
-        };
-        let parts: Vec<&str> = hdr.split(',').collect();
-        let nums: Option<Vec<usize>> = if parts.len() == 3 {
-            parts.iter().map(|x| x.parse::<usize>().ok()).collect()
-        } else {
-            None
-        };
-        let nums = match nums {
-            Some(n) if n[0] <= u16::MAX as usize && n[1] <= u16::MAX as usize => n,
-            _ => {
-                out.garbage = Some((p, format!("bad header {:?}", hdr)));
+            Item::Junk { start, why, .. } => {
+                out.garbage = Some((start, why));
                 return out;
             }
-        };
-        let id = RecId { tid: nums[0] as u16, n: nums[1] as u16 };
-        let len = nums[2];
-        let want = payload(id, len);
-        let have = &data[q + 1..];
-        if have.len() < len {
-            if want.as_bytes().starts_with(have) {
-                out.torn = Some((Some(id), start));
-            } else {
-                out.garbage = Some((q + 1, format!("payload of {} diverges (short)", id)));
-            }
-            return out;
         }
-        if &have[..len] != want.as_bytes() {
-            out.garbage = Some((q + 1, format!("payload of {} diverges", id)));
-            return out;
-        }
-        p = q + 1 + len;
-        out.recs.push((id, start, p));
     }
     out
 }
